@@ -515,10 +515,13 @@ def known_key(prop, clause):
 
 def run_common(chk, prop, clauses, focus_mix, replay=None, extra=None):
     tier, rng = chk.tier, chk.rng
-    pr = chk.prove()
-    gen_problems = [p for p in pr["problems"] if "gen_C06" in p or "gen_C07" in p or "TimerQueue" in p or "Timestamp_k" in p]
+    # Base_Bytes.vo is needed by the extraction (extract/util.ml) but is not in the closure of
+    # Properties_C06/C07.vo: on a fresh checkout it has to be asked for explicitly
+    pr = chk.prove(extra_targets=("Base_Bytes.vo", "C06_Model.vo"))
+    gen_problems = [p for p in pr["problems"] if p.startswith(("gen_C06.py", "gen_C07.py")) or "Timestamp_kMicroSecondsPerSecond" in p]
     try:
-        model = vlib.build_model("C06")
+        with vlib.Lock("coq"):      # no other check may be rebuilding Gen_*.vo / Base_Bytes.vo while coqc extracts
+            model = vlib.build_model("C06")
     except Exception as e:  # the model must run even when a proof breaks; if it cannot be built, say so
         model = None
         chk.notes.append("model build failed: %s" % str(e)[-400:])
